@@ -34,7 +34,10 @@ func genC13(r *simrt.Rand, tier string) (Cfg, *Program) {
 	c, p := generate(r, pf)
 	c.Consumers = 1 + r.Intn(4)
 	for i := range c.Queues {
-		c.Queues[i].FAck, c.Queues[i].FDeq, c.Queues[i].FEnq = 0, 0, 0
+		// a transiently refused dequeue leaves the item in the backend: the consumers must
+		// still drain it (acknowledgement / enqueue faults belong to C11)
+		c.Queues[i].FAck, c.Queues[i].FEnq = 0, 0
+		c.Queues[i].FDeq = pick(r, []int{0, 0, 25})
 	}
 	// half of the submissions go through a bare producer
 	for ti := range p.Tasks {
